@@ -76,7 +76,7 @@ ASSUMPTIONS = [
     "a step 'raises' iff it raises RuntimeError or ValueError; any other exception type propagates (C17/no-exception)",
     "domain: positive extents/samplings, gpts >= 2; value grid is binary-exact so exact-ratio cases do not depend on "
     "floating-point rounding of ceil(extent/sampling)",
-    "histories longer than 2 are sharded: one driver case per (locks, endpoint, init, first step(s)) carries "
+    "histories longer than 1 (quick) / 2 (thorough) are sharded: one driver case per (locks, endpoint, init, first step(s)) carries "
     "expand=k and expand_ops and runs all continuations of k more steps in-process; the detail of a failing clause "
     "names the shortest failing history of that shard",
 ]
@@ -114,9 +114,10 @@ def cases(tier, seed):
         for ep in _ENDPOINTS:
             for init in inits:
                 base.append(dict(dims=2, endpoint=ep, locks=locks, init=init))
-    # --- explicit histories of length 1 and 2: one case per history, so the replay file of a clause that already
-    #     fails on a short history is a minimal reproduction ---------------------------------------------------------
-    for n in (1, 2):
+    # --- explicit histories of length 1 (thorough: and 2): one case per history, so the replay file of a clause that
+    #     already fails on a short history is a minimal reproduction (longer ones are covered by the shards below,
+    #     which check every prefix) --------------------------------------------------------------------------------
+    for n in ((1,) if quick else (1, 2)):
         for b in base:
             for h in itertools.product(ops, repeat=n):
                 yield dict(b, history=[list(x) for x in h])
